@@ -266,9 +266,12 @@ func negotiateFeatures(ctx context.Context, s *Session, first, ws bool, features
 
 		mask, rw, err = data.feature.Negotiate(ctx, s, s.features[data.feature.Name.Space])
 		s.in.d = oldDecoder
-		if err == nil {
-			s.state |= mask
+		if err != nil {
+			// Negotiation ends with the first feature that fails, even if it was
+			// optional and more features remain.
+			return mask, nil, err
 		}
+		s.state |= mask
 		s.negotiated[data.feature.Name.Space] = struct{}{}
 
 		// If we negotiated a required feature or a stream restart is required
